@@ -308,7 +308,7 @@ type C10Case struct {
 
 func hostileValue(idx int, old uint64, width int, fileLen uint64, recOffsets []uint64, seed uint64) uint64 {
 	tbl := []uint64{0, 1, old - 1, old + 1, 1<<31 - 1, 1 << 31, 1<<32 - 1, 1 << 63, 1<<64 - 1, fileLen, fileLen - 1, fileLen + 1,
-		24, 25, 1<<32 - 8, 1<<32 - 9, 8, 9, old + 9, old - 9, 1 << 16, 1<<24 + 7, 1<<63 - 1, 1<<63 + 1, old * 2, 1<<31 - 2}
+		24, 25, 1<<32 - 8, 1<<32 - 9, 8, 9, old + 9, old - 9, 1 << 16, 1<<24 + 7, 1<<63 - 1, 1<<63 + 1, old * 2, 1 << 27, 1<<31 - 2}
 	var v uint64
 	switch {
 	case idx < len(tbl):
@@ -327,7 +327,7 @@ func hostileValue(idx int, old uint64, width int, fileLen uint64, recOffsets []u
 	return v
 }
 
-const nHostile = 28
+const nHostile = 29
 
 func putUint(b []byte, width int, v uint64) {
 	switch width {
@@ -565,7 +565,8 @@ func allocCeiling(c *C10Case, input []byte) uint64 {
 	}
 	if c.Entry == entryLexer && c.Opts&loValidate != 0 {
 		if rec, chunk := limitsOf(c.Opts); rec > 0 {
-			return 4*(uint64(rec)+2*uint64(chunk)) + slack + extra
+			// with limits configured the slack is tight: nothing but the input's own size justifies more
+			return 4*(uint64(rec)+2*uint64(chunk)) + 1<<20 + 64*uint64(len(input)) + extra
 		}
 	}
 	return 2<<30 + slack + extra
